@@ -504,6 +504,43 @@ fn conn_strategy() -> BoxedStrategy<ConnCase> {
         .boxed()
 }
 
+/// Pipelining client: all requests are on the wire at once. Handlers are restricted to those that
+/// leave the parser at a record boundary (read nothing / read the final stream to its end), since
+/// `Request::close` otherwise skips forward through whatever is buffered.
+fn pipelined_strategy() -> BoxedStrategy<ConnCase> {
+    conn_strategy()
+        .prop_map(|mut c| {
+            c.pipelined = true;
+            c.tail.clear();
+            let n = c.reqs.len();
+            for (i, q) in c.reqs.iter_mut().enumerate() {
+                let cap = 1 + (q.pre.id % 97);
+                let write = q.handler.iter().find(|o| matches!(o, HOp::Write { .. } | HOp::WriteAll { .. })).cloned();
+                let ret = q.handler.iter().rev().find(|o| matches!(o, HOp::Return(_))).cloned();
+                let reads = q.handler.iter().any(|o| matches!(o, HOp::Read(_) | HOp::ReadToEnd { .. } | HOp::FillConsume(_)));
+                let mut h = Vec::new();
+                match q.pre.role {
+                    crate::wire::ROLE_FILTER => {
+                        h.push(HOp::AwaitWriteable);
+                        h.push(HOp::ReadToEnd { cap });
+                    },
+                    crate::wire::ROLE_RESPONDER if reads => h.push(HOp::ReadToEnd { cap }),
+                    _ => {},
+                }
+                h.extend(write);
+                h.extend(ret);
+                q.handler = h;
+                q.wait_mgmt = false;
+                q.after.clear();
+                if i + 1 < n {
+                    q.pre.flags |= 1;
+                }
+            }
+            c
+        })
+        .boxed()
+}
+
 pub fn property() -> Property {
     let race: Box<dyn Sub> = Box::new(EnumSub::<Race> {
         name: "threads",
@@ -535,6 +572,14 @@ pub fn property() -> Property {
                 200,
                 5_000,
                 |_| conn_strategy(),
+                test_conn,
+            ),
+            prop_sub(
+                "pipelined_connections",
+                "as 'connections', but the client pipelines: every request is available at once, so the next request is already buffered when shutdown is requested during a handler or close (handlers restricted to those that leave the parser at a record boundary); same oracle; non-trivial as above",
+                150,
+                4_000,
+                |_| pipelined_strategy(),
                 test_conn,
             ),
             prop_sub(
